@@ -168,6 +168,17 @@ class NPFacade:
     def atleast_1d(self, a):
         return np.atleast_1d(a)
 
+    def pad(self, array, pad_width, mode='constant', **kw):
+        def conc(v):
+            if isinstance(v, SymReal):
+                return v.__index__()          # solver-enumerated concretisation point
+            if isinstance(v, (tuple, list)):
+                return tuple(conc(x) for x in v)
+            return v
+        out = np.pad(np.asarray(array, dtype=object).view(np.ndarray) if symx.has_sym(array) else array,
+                     conc(pad_width), mode=mode, **kw)
+        return out.view(symx.SymArray) if out.dtype == object else out
+
     def isfinite(self, a, *args, **kw):
         if isinstance(a, (SymReal, SymBool)):
             return np.True_
